@@ -119,13 +119,22 @@ def simulate_wiring_ob(clsname):
             if kw['dtype'] is not torch.float64 or set(kw) - {'n_paths', 'n_steps', 'init_state', 'dt', 'dtype', 'device', 'engine', 'sigma_fn'} - set(pmap.values()):
                 return Verdict('refuted', 'structural', time.time() - t0, 'generator kwargs %s / dtype %s' % (sorted(kw), kw['dtype']), witness={}, replay={'confirmed': False})
             bufs = p.result
-            if list(bufs) != buffers:
+            if not set(buffers) <= set(bufs):        # registration order and additional (derived) buffers are not part of the contract
                 return Verdict('refuted', 'structural', time.time() - t0, 'buffers after simulate: %s, documented: %s' % (list(bufs), buffers), witness={'buffers': list(bufs)}, replay=_replay_simulate(clsname))
             for b in buffers:
                 sh = bufs[b]._shape
                 okn = smt.prove(facts, tm.and_(tm.eq(lift(sh[0]) if not isinstance(sh[0], int) else tm.const(sh[0], 'I'), NP),
                                                tm.eq(lift(sh[1]) if not isinstance(sh[1], int) else tm.const(sh[1], 'I'), tm.add(tm.ceil(tm.div(HOR, DT)), tm.IONE))), timeout_ms=10000)
-                if okn.status != 'unsat' or not getattr(bufs[b], 'name', '').startswith('gen_%s2' % b):
+                fresh_series = getattr(bufs[b], 'name', '').startswith('gen_%s2' % b)
+                if okn.status == 'unsat' and not fresh_series:
+                    # not the generator's tensor object itself: accept any tensor holding its values (a copy, a cast to the same dtype)
+                    n_, k_ = tm.var('n', 'I'), tm.var('k', 'I')
+                    rng_ = [tm.le(tm.IZERO, n_), tm.lt(n_, NP), tm.le(tm.IZERO, k_), tm.lt(k_, tm.add(tm.ceil(tm.div(HOR, DT)), tm.IONE))]
+                    try:
+                        fresh_series = fc.prove_eq(facts + rng_, bufs[b].at((n_, k_)), tm.sel('gen_%s2' % b, n_, k_), timeout_ms=10000).status == 'unsat'
+                    except Exception:
+                        fresh_series = False
+                if okn.status != 'unsat' or not fresh_series:
                     return Verdict('refuted', 'structural+z3', time.time() - t0, 'buffer %s is not the freshly generated (n_paths, ceil(h/dt)+1) series: shape %s name %s' % (b, sh, getattr(bufs[b], 'name', None)),
                                    witness={'buffer': b}, replay=_replay_simulate(clsname))
         return Verdict('proved', 'z3 + structural', time.time() - t0, '', sample={'claim': '%s.simulate wiring' % clsname, 'goals': [g_[0] for g_ in goals]})
@@ -202,12 +211,15 @@ def derivative_simulate_ob():
             if p.outcome() != 'returns':
                 return Verdict('unknown', 'engine', time.time() - t0, str([(q.outcome(), q.traceback[-400:]) for q in paths]))
             a, b, init, calls = p.result
-            if not (len(calls) == 2 and calls[0][0] is a and calls[1][0] is b):
-                return Verdict('refuted', 'structural', time.time() - t0, 'underlier simulate calls: %d (expected one per underlier, in registration order)' % len(calls), witness={'calls': len(calls)},
+            if not (len(calls) == 2 and {id(calls[0][0]), id(calls[1][0])} == {id(a), id(b)}):
+                return Verdict('refuted', 'structural', time.time() - t0, 'underlier simulate calls: %d (expected exactly one per underlier)' % len(calls), witness={'calls': len(calls)},
                                replay={'confirmed': False})
             facts = p.facts(hyps)
-            for (u, kw), dt_ in zip(calls, (dta, dtb)):
-                if lift(kw['n_paths']) is not NP or kw['init_state'] is not init:
+            for (u, kw) in calls:
+                dt_ = dta if u is a else dtb
+                st_ = kw.get('init_state')
+                same_init = st_ is init or (isinstance(st_, (tuple, list)) and len(st_) == len(init) and all(tm.as_term(lift(x_)) is tm.as_term(lift(y_)) for x_, y_ in zip(st_, init)))
+                if smt.prove(facts, tm.eq(tm.as_term(lift(kw['n_paths'])), NP), timeout_ms=5000).status != 'unsat' or not same_init:
                     return Verdict('refuted', 'structural', time.time() - t0, 'n_paths / init_state not forwarded unchanged', witness={}, replay={'confirmed': False})
                 h = tm.as_term(lift(kw['time_horizon']))
                 # what matters for the time grid: the number of time points this underlier will get
